@@ -443,3 +443,32 @@ def check_subject_encrypt_node(ctx, inst):
             ctx.ok(inst, ctx.site(b, bi), 'node arm returns replace_subject(self, encrypted subject)')
     if found == 0:
         ctx.lost(inst, 'node rebuild in encrypt_subject_opt')
+
+
+def check_replace_subject(ctx, inst):
+    F = ctx.F
+    P1 = ('param', 1)
+    # replace_subject: node(new subject, the receiver's assertions) - the new subject must stay the subject even if it is a node
+    b = F.method1('Envelope', 'replace_subject')
+    if b is None:
+        ctx.lost(inst, 'Envelope::replace_subject')
+    else:
+        tb = TermBuilder(F, b)
+        alts = [strip_sites(x[2]) for x in ret_defs(tb)]
+        bad = []
+        nodes = 0
+        for a in alts:
+            if a == ('param', 2):
+                continue
+            if a[0] == 'call' and len(a[2]) == 2 and codec.ctor_variants(F, a) == {'Node'} and a[2][0] == ('param', 2):
+                v = a[2][1]
+                s_ = m_call(v, name='assertions', self_suffix='Envelope')
+                if (s_ is not None and s_[0] == P1) or child_kind(v) == 'Node.assertions':
+                    nodes += 1
+                    continue
+            bad.append(a)
+        if bad or nodes == 0:
+            ctx.fail(inst, ctx.site(b), 'replace_subject does not return node-constructor(new subject, assertions(self)) (a fold of add_assertion onto the new subject '
+                     'merges into a node-valued subject and changes the digest): %s' % [fmt(x) for x in (bad or alts)], key=inst + '|replace_subject')
+        else:
+            ctx.ok(inst, ctx.site(b), 'replace_subject = new subject alone, or node-constructor(new subject, assertions(self))', sample=[fmt(x) for x in alts])
